@@ -117,6 +117,81 @@ def serializeXmlStringWith (esc : Escapers) (env : Env) (p : XmlParams) (t : Tre
     Outcome XotError Str :=
   bufferToString (serializeXmlWriteWith esc env p t start)
 
+/-! ### The same in front of a writer that can fail -/
+
+/-- `Declaration::serialize`: one `w.write_all(..)?` per piece, in this order. -/
+def Declaration.calls (d : Declaration) : List Str :=
+  [declOpen]
+    ++ (match d.encoding with
+        | some e => [declEncodingOpen, e, declEncodingClose]
+        | none => [])
+    ++ (match d.standalone with
+        | some b => [declStandaloneOpen, (if b then declYes else declNo), declStandaloneClose]
+        | none => [])
+    ++ [declClose]
+
+/-- `DocType::serialize(name, w)`: one `w.write_all(..)?` per piece. -/
+def DocType.calls (d : DocType) (name : Str) : List Str :=
+  [doctypeOpen, name]
+    ++ (match d with
+        | .pub p s => [doctypePublicOpen, p, doctypePublicSep, s, doctypePublicClose]
+        | .sys s => [doctypeSystemOpen, s, doctypeSystemClose])
+    ++ [doctypeClose]
+
+/-- The `if let Some(declaration) = parameters.declaration { declaration.serialize(w)?; }` calls. -/
+def XmlParams.declCalls (p : XmlParams) : List Str :=
+  match p.declaration with
+  | some d => d.calls
+  | none => []
+
+/-- The `if let Some(doctype) = parameters.doctype { … }` block in front of a writer that accepts
+    everything: the element name is computed first (`NotElement`, `NoElementAtTopLevel`,
+    `MissingPrefix` are returned before the doctype writer is called), then `doctype.serialize(name, w)?`. -/
+def doctypeBlockCalls (env : Env) (p : XmlParams) (t : Tree) (start : Path) :
+    List Str × Outcome XotError Unit :=
+  match p.doctype with
+  | some d =>
+    (match doctypeName env t start with
+     | .ok name => (d.calls name, .ok ())
+     | .err e => ([], .err e)
+     | .panic => ([], .panic))
+  | none => ([], .ok ())
+
+/-- `serialize_xml_write_with_normalizer(parameters, node, w, normalizer)` for any writer: the bytes
+    the writer holds when the call returns, and how it returns.  Statement order of serialize.rs:
+    declaration (`?`), doctype block (its own errors first, then its writes, `?`), then
+    `serializer.serialize_pretty(w, ..)?` / `serializer.serialize(w, ..)?`. -/
+def serializeXmlWriteW (P : WriterPolicy) (esc : Escapers) (env : Env) (p : XmlParams) (t : Tree)
+    (start : Path) : Str × Outcome XotError Unit :=
+  match writeCalls P [] p.declCalls with
+  | .error b => (b, .err .io)
+  | .ok h1 =>
+    match (doctypeBlockCalls env p t start).2 with
+    | .err e => (h1.flatten, .err e)
+    | .panic => (h1.flatten, .panic)
+    | .ok () =>
+      match writeCalls P h1 (doctypeBlockCalls env p t start).1 with
+      | .error b => (b, .err .io)
+      | .ok h2 =>
+        match p.indentation with
+        | some suppress =>
+          writePrettyGoW P esc env p.tokenParams suppress t h2 ([], initStack t start) (genOutputs t start)
+        | none => writeGoW P esc env p.tokenParams t h2 (initStack t start) (genOutputs t start)
+
+/-- The `write_all` calls `serialize_xml_write_with_normalizer` makes when none is refused, in order,
+    and how the call ends. -/
+def serializeXmlCalls (esc : Escapers) (env : Env) (p : XmlParams) (t : Tree) (start : Path) :
+    List Str × Outcome XotError Unit :=
+  match (doctypeBlockCalls env p t start).2 with
+  | .err e => (p.declCalls, .err e)
+  | .panic => (p.declCalls, .panic)
+  | .ok () =>
+    let body := match p.indentation with
+      | some suppress =>
+        writePrettyGoCalls esc env p.tokenParams suppress t ([], initStack t start) (genOutputs t start)
+      | none => writeGoCalls esc env p.tokenParams t (initStack t start) (genOutputs t start)
+    (p.declCalls ++ (doctypeBlockCalls env p t start).1 ++ body.1, body.2)
+
 abbrev serializeXmlWrite := serializeXmlWriteWith xmlEscapers
 abbrev serializeXmlString := serializeXmlStringWith xmlEscapers
 
